@@ -81,6 +81,33 @@ def ladder_worlds(full):
                     yield 'ladder%+d-%s-disp%s' % (sign, ''.join(map(str, trans)), '' if j is None else '%d=%d' % (j, v)), ref, q, grid
 
 
+def dup_worlds():
+    """tandem duplications: two diagonals whose segments overlap on ONE axis only (the same reference labels paired with two different
+    stretches of the query, or the other way round), with an unpaired label of that axis at different places in the two copies"""
+    # irregular gaps and a duplication offset that is not a multiple of the lattice step: a diagonal only fits its own copy
+    base = [0, 10, 30, 70, 80, 120, 130, 160, 200, 210, 250, 270, 280, 320, 350, 360, 400, 420, 460, 470]
+    a0, a1, b0, b1 = 2, 9, 7, 15           # copy 1 = labels 2..9, copy 2 = labels 7..15: they share labels 7, 8, 9
+    D = (base[a1] - base[a0] + 15) - (base[b0] - base[a0])
+    for drop1, drop2, graded in [(d1, d2, g) for d1 in (None, 7, 8, 9) for d2 in (None, 7, 8, 9) for g in (False, True)]:
+            if drop1 is not None and drop1 == drop2:
+                continue
+            # graded: inside the shared stretch the first copy's pairs get worse label by label and the second copy's get better, so
+            # the best place to cut lies strictly INSIDE the shared stretch
+            j1 = {7: 0, 8: 2, 9: 4} if graded else {}
+            j2 = {7: -4, 8: -2, 9: 0} if graded else {}
+            part1 = [base[i] - base[a0] + j1.get(i, 0) for i in range(a0, a1 + 1) if i != drop1]
+            part2 = [base[i] - base[a0] + D + j2.get(i, 0) for i in range(b0, b1 + 1) if i != drop2]
+            dup = part1 + part2
+            single = list(base)
+            # (a) the QUERY carries the duplication: overlap on the reference axis only
+            p0 = base[a0]
+            yield 'dupQ-%s-%s-%s' % (drop1, drop2, graded), single, dup, [p0 - D - 5, p0 - D, p0 - D + 5, p0 - 5, p0, p0 + 5]
+            # (b) the REFERENCE carries the duplication: overlap on the query axis only
+            ref2 = [100 + x for x in dup]
+            q2 = [base[i] - base[a0] for i in range(a0, b1 + 1)]
+            yield 'dupR-%s-%s-%s' % (drop1, drop2, graded), ref2, q2, [100 - 5, 100, 100 + 5, 100 + D - 5, 100 + D, 100 + D + 5]
+
+
 def mirror(q):
     return sorted(q[-1] - p for p in q)
 
@@ -237,7 +264,7 @@ def layers(tier, seed):
     base = list(base_worlds())
     if tier == 'quick':
         return [Ladders('base,k<=4', base, 4), Ladders('derived/5,k<=3', list(derived_worlds())[::5], 3),
-                Ladders('indel-ladders,k<=3', list(ladder_worlds(False)), 3)]
+                Ladders('indel-ladders,k<=3', list(ladder_worlds(False)), 3), Ladders('duplications,k<=3', list(dup_worlds()), 3)]
     der = list(derived_worlds())
-    return [Ladders('base,k<=5', base, 5), Ladders('indel-ladders,k<=4', list(ladder_worlds(True)), 4), Ladders('derived,k<=3', der, 3),
+    return [Ladders('base,k<=5', base, 5), Ladders('indel-ladders,k<=4', list(ladder_worlds(True)), 4), Ladders('duplications,k<=4', list(dup_worlds()), 4), Ladders('derived,k<=3', der, 3),
             Ladders('derived,k=4', der, 4, optional=True)]
